@@ -250,10 +250,10 @@ sim = [v for v, _ in probe.Parser.Endogenous]
 names = set(sim) | set(exo) | {l for l, _ in probe.Parser.Lagged} | {'k'}
 gain = 0.0
 for v, eqn in probe.Parser.Endogenous:
-    z = {n: 0.0 for n in names}; z.update(funcs)
+    z = {n: 1.0 for n in names}; z.update(funcs)      # finite differences around 1 (the equations are affine in the simultaneous variables; divisors are exogenous)
     base = eval(eqn, {}, z); row = 0.0
     for w in sim:
-        z1 = dict(z); z1[w] = 1.0
+        z1 = dict(z); z1[w] = 2.0
         row += abs(eval(eqn, {}, z1) - base)
     gain = max(gain, row)
 bound = (1 + gain) * max(len(sim), 1) * tol / (1 - tol)
